@@ -6,6 +6,15 @@
 
 namespace vf {
 
+// Did the parser represent `text` faithfully in `u` (components, host kind and bytes, segments, flags as the grammar says)?
+template <class X> bool faithful_uri(const typename X::Uri& u, const Str& text) {
+    size_t e; if (!dfa_uriref(text, &e)) return false;
+    ObjView v = read_uri<X>(u); if (!v.malformed.empty()) return false;
+    Comp m = split(text); if (!comp_diff(v.c, m).empty()) return false;
+    bool mabs; StrVec msegs; path_to_segments(m.path, m.hasAuth, &mabs, &msegs);
+    return mabs == v.abs && msegs == v.segs;
+}
+
 template <class X> struct UriBox {
     typedef typename X::Char Char; typedef typename X::Uri Uri;
     Uri u; bool live = false;
@@ -27,7 +36,7 @@ template <class X> struct UriBox {
     int parse(const Str& s, Ledger* l = nullptr) {
         free_members(); set_text(s); led = l;
         const Char* ep = nullptr; int rc;
-        { LibScope ls; rc = l ? X::ParseSingleUriExMm(&u, text, text + len, &ep, l->mgr()) : X::ParseSingleUriEx(&u, text, text + len, &ep); }
+        { AttrScope at("C03"); LibScope ls; rc = l ? X::ParseSingleUriExMm(&u, text, text + len, &ep, l->mgr()) : X::ParseSingleUriEx(&u, text, text + len, &ep); }
         live = rc == URI_SUCCESS;
         if (!live) memset(&u, 0, sizeof u);
         return rc;
@@ -40,7 +49,13 @@ template <class X> struct UriBox {
     }
     int make_owner() { LibScope ls; return led ? X::MakeOwnerMm(&u, led->mgr()) : X::MakeOwner(&u); }
     int normalize(unsigned mask) { LibScope ls; return led ? X::NormalizeSyntaxExMm(&u, mask, led->mgr()) : X::NormalizeSyntaxEx(&u, mask); }
-    int str(Str* out) const { return to_string<X>(u, out); }
+    int str(Str* out) const { AttrScope at("C05"); return to_string<X>(u, out); }
+    // Text of the object by the harness' own recomposition of the fields (independent of uriToString): used by the checks
+    // whose property is not about recomposition, so that a recomposition defect is not blamed on them.
+    Str text_of_fields() const { ObjView v = read_uri<X>(u); if (!v.malformed.empty()) return "<malformed: " + v.malformed + ">"; return recompose(v.c); }
+    // Did the parser represent the text faithfully (components, host kind and bytes, segments, flags as the grammar says)?
+    // Checks that start from parsed objects skip a case when it did not: that is C01/C02's business, not theirs.
+    bool faithful() const { return live && faithful_uri<X>(u, srcText); }
     ObjView view() const { return read_uri<X>(u); }
 };
 
